@@ -32,10 +32,17 @@ def literal_probes(syn):
         inner += [c + c, c + c + 'a', 'a' + c + c, 'a' + c + c + 'b', c + c + c + c]
     if syn.escape and syn.doubled:
         inner += ['\\\\' + c + c, c + c + '\\\\']
+    # ... and every body of up to 4 characters over {a, backslash, both quote characters}: lone backslashes at the end, runs of backslashes, mixed forms
+    import itertools
+    for k in range(1, 5):
+        for w in itertools.product('a\\' + c + o, repeat=k):
+            inner.append(''.join(w))
     out = []
+    seen = set()
     for x in inner:
         lit = c + x + c
-        if syn.accepts(lit) and lit not in out:
+        if lit not in seen and syn.accepts(lit):
+            seen.add(lit)
             out.append(lit)
     return out
 
@@ -310,6 +317,37 @@ def variable_encoder(ctx, vci):
     return lambda name, is_sys: pr(value=name, is_system_var=is_sys)
 
 
+def check_word_atomic(ctx):
+    """A maximal run of identifier characters is ONE token: the ordered first-match lexer is simulated on every word of up to 5 characters over a reduced
+    identifier alphabet (a letter, the exponent letter, a digit, `_`, `$`); a word read as two tokens changes the name the user wrote into a number and an alias."""
+    import itertools
+    for d in DIALECTS:
+        g = load_dialect(ctx.src, d)
+        lex = g.lexer
+        idr = lex.rule('ID')
+        ctx.need(idr is not None, f'{d}: no ID token')
+        m = master_for(lex)
+        alphabet = [c for c in 'ae1_$' if re.fullmatch(idr.pattern, 'a' + c, lex.reflags)]
+        ctx.need(len(alphabet) >= 3, f'{d}: the ID pattern does not accept words over letters and digits')
+        bad = []
+        n = 0
+        for k in range(1, 6):
+            for w in itertools.product(alphabet, repeat=k):
+                word = ''.join(w)
+                n += 1
+                try:
+                    ts = m.types(word)
+                except Exception:
+                    ts = ['<lex error>']
+                if len(ts) != 1:
+                    bad.append((word, ts))
+        ctx.count('atomic_words', n)
+        ctx.ob('C04.word-atomic', d, not bad,
+               f'{d}: the word `{bad[0][0]}` (identifier characters only, no white space) is read as {len(bad[0][1])} tokens {bad[0][1]}: the name the user wrote is '
+               f'split ({len(bad)} such words up to 5 characters over {alphabet})' if bad else '', file=lex.file, line=idr.line,
+               witness=f'select {bad[0][0]} from t' if bad else None)
+
+
 def check_identifier_paths(ctx):
     """path_str_to_parts splits at dots: it may only receive ID token text (which still carries its back-quotes); values of
     quote_string / dquote_string are already unquoted - dots inside them are content.  Also: no case change between the token
@@ -514,6 +552,7 @@ def run(ctx):
     check_strings(ctx)
     check_variables(ctx)
     check_identifier_paths(ctx)
+    check_word_atomic(ctx)
     check_identifier_encoder(ctx)
     ctx.sample({'value_probes': VALUE_PROBES[:10]})
     ctx.floor('string_decoders', 6)
